@@ -1,1 +1,53 @@
-import CoseModel
+/-
+  CoseSpec — RFC-level definitions, independent of how the Go code computes anything.
+  * RFC 8949 §4.2.1 deterministic encoding for the items COSE signs (text, byte strings, arrays);
+  * RFC 9052 §4.4 Sig_structure, RFC 9338 §3.3 Countersign_structure.
+-/
+import CoseModel.Basic
+import CoseModel.Cbor
+namespace CoseSpec
+open CoseModel
+
+/-- the data items that occur in a Sig_structure -/
+inductive Item
+  | tstr (utf8 : Bytes)
+  | bstr (b : Bytes)
+  | arr (xs : List Item)
+
+/-- shortest-form head (RFC 8949 §4.2.1: preferred serialization, definite length) -/
+def detHead (major n : Nat) : Bytes := headBytes major (HW.shortest n) n
+
+mutual
+/-- deterministic encoding -/
+def detEnc : Item → Bytes
+  | .tstr b => detHead 3 b.length ++ b
+  | .bstr b => detHead 2 b.length ++ b
+  | .arr xs => detHead 4 xs.length ++ detEncList xs
+def detEncList : List Item → Bytes
+  | [] => []
+  | x :: xs => detEnc x ++ detEncList xs
+end
+
+def utf8 (s : String) : Bytes := s.toUTF8.toList
+
+/-- RFC 9052 §4.4: Sig_structure for COSE_Sign1 -/
+def sigStructure1 (bodyProtected externalAad payload : Bytes) : Item :=
+  .arr [.tstr (utf8 "Signature1"), .bstr bodyProtected, .bstr externalAad, .bstr payload]
+
+/-- RFC 9052 §4.4: Sig_structure for one signer of a COSE_Sign -/
+def sigStructure (bodyProtected signProtected externalAad payload : Bytes) : Item :=
+  .arr [.tstr (utf8 "Signature"), .bstr bodyProtected, .bstr signProtected, .bstr externalAad, .bstr payload]
+
+/-- RFC 9338 §3.3: Countersign_structure; `other` = the parent's signature for the V2 forms -/
+def countersignStructure (context : String) (bodyProtected signProtected externalAad payload : Bytes)
+    (other : Option Bytes) : Item :=
+  match other with
+  | none => .arr [.tstr (utf8 context), .bstr bodyProtected, .bstr signProtected, .bstr externalAad, .bstr payload]
+  | some sig => .arr [.tstr (utf8 context), .bstr bodyProtected, .bstr signProtected, .bstr externalAad,
+                      .bstr payload, .arr [.bstr sig]]
+
+/-- a definite-length byte string as it may appear on the wire: any head width that fits -/
+def IsBstrEncoding (raw content : Bytes) : Prop :=
+  ∃ w : HW, w.fits content.length = true ∧ raw = headBytes 2 w content.length ++ content
+
+end CoseSpec
